@@ -49,6 +49,7 @@ type OpB struct {
 
 type CaseB struct {
 	Ops []OpB `json:"ops"`
+	Cfg Cfg   `json:"cfg"` // configuration / environment the fixture is built from (cfg_test.go)
 }
 
 // ---------------------------------------------------------------------------- generator
@@ -211,6 +212,7 @@ func genB(t *rapid.T) CaseB {
 		}
 		c.Ops = append(c.Ops, op)
 	}
+	c.Cfg = genCfg(t)
 	return c
 }
 
@@ -319,8 +321,13 @@ func checkB(c CaseB) (v *core.Violation) {
 	if censusSane() != "" {
 		return skip("goroutine-model-mismatch")
 	}
-	x := &runB{f: newFixture()}
+	x := &runB{f: newFixtureCfg(c.Cfg)}
 	defer func() { x.f.cleanup(x.clis()) }()
+	if pv, sk := x.f.preSteps("b"); sk != "" {
+		return skip(sk)
+	} else if pv != nil {
+		return pv
+	}
 	for i, op := range c.Ops {
 		var sv *core.Violation
 		var skipped string
@@ -386,6 +393,11 @@ func checkB(c CaseB) (v *core.Violation) {
 		}
 		if p := x.f.proxyPorts(); len(p) != 0 {
 			return core.V("b|end|proxy-table-not-empty", "after every proxy was killed the proxy table still holds %v", p)
+		}
+		if c.Cfg.NonDefault {
+			if v := x.f.postSteps("b"); v != nil {
+				return v
+			}
 		}
 	}
 	return x.r.result()
@@ -459,6 +471,7 @@ func (x *runB) opConnect(op OpB) (*core.Violation, string) {
 		return nil, "client-write-failed"
 	}
 	cl.reader = "spin"
+	x.relayMissing(cl)
 	tasks, ok, v := x.settle()
 	if v != nil {
 		return v, ""
@@ -497,6 +510,21 @@ func (x *runB) opConnect(op OpB) (*core.Violation, string) {
 		return nil, ""
 	}
 	return x.answer(cl, op.Answer == "ok", op.Err)
+}
+
+// relayMissing: the client has sent a complete CONNECT request.  The connection handler starts
+// the relay goroutine of the socket before it returns, so once no handler is running a relay
+// goroutine that is not there will never be there: the history's expectation is corrected (the
+// oracle of the step then finds that nothing was queued) instead of waiting waitBound for it.
+func (x *runB) relayMissing(cl *bcli) bool {
+	if !waitFor(waitBound, func() bool { return count().handlers == parkedHandlers }) {
+		return false
+	}
+	if want, _ := x.expectReaders(); count().readers < want {
+		cl.reader = ""
+		return true
+	}
+	return false
 }
 
 // opStaged: one client walks through the protocol and the operator issues a command at a
@@ -649,6 +677,7 @@ func (x *runB) opStaged(op OpB) (*core.Violation, string) {
 	// the proxy is still there: the connect goes through as in the connect step
 	parkedHandlers = 0
 	cl.reader = "spin"
+	x.relayMissing(cl)
 	tasks, ok, v := x.settle()
 	if v != nil || !ok {
 		return v, "no-quiescence-after-request"
@@ -1337,6 +1366,7 @@ func classifyB(c CaseB) core.Class {
 		kinds[op.Op] = true
 		cl.Labels = append(cl.Labels, l)
 	}
+	cl.Labels = append(cl.Labels, c.Cfg.labels()...)
 	if bigC {
 		cl.Labels = append(cl.Labels, "chunk>64KiB")
 	}
@@ -1357,7 +1387,7 @@ func TestC15b(t *testing.T) {
 	defer censusVerdict()
 	core.Run(t, core.Spec[CaseB]{
 		Property: "C15", Sub: "b",
-		Rule: "sequential history of 2-12 steps over 1-3 proxies started with `socks add`: connect (ATYP 1/3/4, domain length incl. 0/255, request split outside the address, agent answers ok / error / later), client->agent data (1-5 chunks of 0..70000 bytes, each its own write), agent->client data (READ callbacks, type REVERSE_PROXY), close by agent CLOSE callback / client FIN / client RST (before and after the connect reply), socks add (also duplicate port) / list / kill / clear, reverse-port-forward sessions (OPEN, READ type CLIENT against a harness TCP target that answers and closes, or REMOVE first). Oracle: connect task = request; concatenated write-task bodies of that socket id = client bytes in order and nothing for other ids; client reads exactly the bytes of the READ callbacks; a close from either side removes the id from the socket table, ends the client's stream, and queues a close task when the agent still has the socket; kill/clear remove exactly the proxies named, end their accept loops, drop their sockets with close tasks, return with all three mutexes free; forward target receives the agent's bytes, the target's answer comes back as write tasks of that forward id, REMOVE empties the forward table and ends the target's stream. Non-trivial: a request split across >=2 writes, domain length 0 or 255, or >=2 clients; distinct = set of step kinds x clients x split x domain class x big chunk",
+		Rule: "sequential history of 2-12 steps over 1-3 proxies started with `socks add`: connect (ATYP 1/3/4, domain length incl. 0/255, request split outside the address, agent answers ok / error / later), client->agent data (1-5 chunks of 0..70000 bytes, each its own write), agent->client data (READ callbacks, type REVERSE_PROXY), close by agent CLOSE callback / client FIN / client RST (before and after the connect reply), socks add (also duplicate port) / list / kill / clear, reverse-port-forward sessions (OPEN, READ type CLIENT against a harness TCP target that answers and closes, or REMOVE first). Oracle: connect task = request; concatenated write-task bodies of that socket id = client bytes in order and nothing for other ids; client reads exactly the bytes of the READ callbacks; a close from either side removes the id from the socket table, ends the client's stream, and queues a close task when the agent still has the socket; kill/clear remove exactly the proxies named, end their accept loops, drop their sockets with close tasks, return with all three mutexes free; forward target receives the agent's bytes, the target's answer comes back as write tasks of that forward id, REMOVE empties the forward table and ends the target's stream. Non-trivial: a request split across >=2 writes, domain length 0 or 255, or >=2 clients; distinct = set of step kinds x clients x split x domain class x big chunk Configuration / environment dimension (cfg_test.go; labels cfg:* / env:*): about half of the cases keep the default fixture, the others build it from a generated configuration drawn in combination - agent Info.WorkingHours (window containing / excluding by hours / excluding by minutes the teamserver's local time, whole day, end before start, window around the local time of an agent in another zone), Info.KillDate (future / past / now-1s / now+1s), SleepDelay/Jitter (1/0, 5/20, MaxInt32/100), Active=false, pivot child (tasks also decoded out of the parent's queue: same multiset), all-zero AES key/IV, time.Local (UTC, +05:30, -08:00, +12:00, +14:00), an address form given to `socks add` first (127.0.0.1:port / 0.0.0.0:port / [::1]:port: refused, table unchanged), 1-2 further proxies on the agent, 1-2 further agents with a proxy each (handed nothing, no socket, killed cleanly at the end), RLIMIT_NOFILE exhausted for one accept on a proxy of its own / one dial of a port-forward target (tables cleaned by the following kill / REMOVE); the oracle above is unchanged under every configuration",
 		Gen:  genB, Check: checkB, Classify: classifyB,
 		Assumptions: []string{
 			"one actor at a time: the job queue and tables are read only at established quiescent states (fixture_test.go); concurrency is sub-check (c)",
